@@ -186,5 +186,5 @@ pub fn selftest() -> i32 {
 
 /// judges that run inside worker children (`rpmverif worker <name>`)
 pub fn worker_judges() -> Vec<(&'static str, crate::monitor::worker::Judge)> {
-    vec![("c04", c04::judge_c04), ("c01", c01::judge_c01), ("c03", c03::judge_c03), ("c02b", c02::judge_c02b)]
+    vec![("c04", c04::judge_c04), ("c04z", c04::judge_c04z), ("c01", c01::judge_c01), ("c03", c03::judge_c03), ("c02b", c02::judge_c02b)]
 }
